@@ -1222,8 +1222,17 @@ impl World {
             bad("C17.as_ref", format!("AsRef/Deref/Borrow views of {mx:?} differ from the text"));
         }
         let back: String = String::from(x);
-        if back != *mx {
-            bad("C17.as_ref", format!("String::from(&LeanString) of {mx:?} gave {back:?}"));
+        let back2: String = String::from(x.clone());
+        if back != *mx || back2 != *mx {
+            bad("C17.as_ref", format!("String::from(&LeanString) / String::from(LeanString) of {mx:?} gave {back:?} / {back2:?}"));
+        }
+        // Extend<LeanString> for String
+        let mut ext = String::from("<");
+        ext.extend([x.clone(), y.clone()]);
+        if ext != format!("<{mx}{my}") {
+            for c in ["C17.as_ref", "C01.extend_string"] {
+                bad(c, format!("String::extend([{mx:?}, {my:?}]) gave {ext:?}"));
+            }
         }
         let _ = fnv(b"");
     }
